@@ -67,6 +67,7 @@ func main() {
 	}
 
 	t0 := time.Now()
+	keyOrderCheck(res)
 	raceProbe(res, false)
 	raceProbe(res, true)
 	var scs []scenario
